@@ -3,7 +3,7 @@
 (*                                                                           *)
 (* (a) The TCP command port (telnet/telnet.go, handleApiRequest): the        *)
 (* connection is a byte stream; the network delivers it in arbitrary         *)
-(* pieces (Arrive); before every Read the handler writes the banner; one     *)
+(* pieces (MayHaveArrived); before every Read the handler writes the banner; one     *)
 (* conn.Read into a buffer of Cap bytes takes what has arrived, at most Cap, *)
 (* and THAT is one command text: TrimSpace, Split on " ", the handler chosen *)
 (* by the first registered prefix the text starts with, the reply written,   *)
@@ -113,25 +113,29 @@ NHttp == Cardinality({i \in 1..Len(hist) : hist[i].k = "http"})
 
 \* the cut points of a lockstep client: command boundaries
 Boundaries == {0} \cup {CEnd(i) + 1 : i \in 1..Len(script)}
-Arrive == /\ arrived < Len(Stream)
-          /\ IF Lockstep
-             THEN /\ consumed = arrived
-                  /\ arrived' = MinOf({b \in Boundaries : b > arrived})
-             ELSE \E k \in 1..(Len(Stream) - arrived) : arrived' = arrived + k
-          /\ UNCHANGED <<script, consumed, T, out, hist>>
+\* what may have arrived when the next Read returns: everything that had arrived before, and at least one byte more
+\* than was consumed; any amount (the network segments as it likes) -- or, for the lockstep client, exactly the
+\* next command and only when everything before it was consumed and answered
+MayHaveArrived ==
+    IF Lockstep THEN (IF consumed = arrived THEN {MinOf({b \in Boundaries : b > arrived})} ELSE {arrived})
+    ELSE {x \in (consumed + 1)..Len(Stream) : x >= arrived}
 
 BufSize == IF Mutant = "cap_off_by_one" THEN Cap - 1 ELSE Cap
-Read == /\ consumed < arrived /\ NReads < MaxReads
-        /\ LET avail == arrived - consumed
+\* one iteration of handleApiRequest: (the banner was written,) Read blocks until something is there, takes
+\* min(buffer, available), the command is handled, the reply and the next banner are written
+Read == /\ consumed < Len(Stream) /\ NReads < MaxReads
+        /\ \E arr \in MayHaveArrived :
+           LET avail == arr - consumed
                n     == Min2(BufSize, avail)
                raw   == Sub(Stream, consumed + 1, consumed + n)
                r     == ExecRead(Mux, T, raw)
-           IN  /\ consumed' = consumed + n
+           IN  /\ arrived' = arr
+               /\ consumed' = consumed + n
                /\ T' = r.T
                /\ out' = out \o r.rep \o (IF Mutant = "no_banner" THEN <<>> ELSE <<"B">>)
                /\ hist' = Append(hist, [k |-> "read", a |-> consumed + 1, b |-> consumed + n, avail |-> avail, raw |-> raw,
                                         cmd |-> r.cmd, h |-> r.h, rep |-> r.rep, T0 |-> T, T1 |-> r.T, md |-> r.md])
-        /\ UNCHANGED <<script, arrived>>
+        /\ UNCHANGED script
 
 Http == /\ NHttp < MaxHttp
         /\ \E q \in HttpReqs :
@@ -140,7 +144,7 @@ Http == /\ NHttp < MaxHttp
               /\ hist' = Append(hist, [k |-> "http", q |-> q, st |-> r.st, T0 |-> T, T1 |-> r.T])
         /\ UNCHANGED <<script, arrived, consumed, out>>
 
-Next == Arrive \/ Read \/ Http
+Next == Read \/ Http
 Spec == Init /\ [][Next]_vars
 
 (* ----------------------------------------------------------- guarantees *)
@@ -167,14 +171,16 @@ G_Banner == /\ out[1] = "B" /\ out[Len(out)] = "B"
             /\ Cardinality({j \in 1..Len(out) : out[j] = "B"}) = Cardinality(Reads) + 1
 
 IsErr(x) == HasPrefix(x, "E:")
-G_OneReply == \A i \in NewRead : /\ Len(hist[i].rep) = 1
-                               /\ hist[i].h = "mod" => (hist[i].rep[1] = "ok" \/ IsErr(hist[i].rep[1]))
+G_OneReply == \A i \in NewRead :
+                 /\ Len(hist[i].rep) = 1
+                 /\ (hist[i].h = "mod" => (hist[i].rep[1] = "ok" \/ IsErr(hist[i].rep[1])))
 G_Rejected == \A i \in NewRead : (Len(hist[i].rep) = 1 /\ hist[i].rep[1] # "ok") => hist[i].T1 = hist[i].T0
 
 G_Stream == LET rs == SelectSeq(hist, LAMBDA x : x.k = "read") IN
-            \A j \in {Len(rs)} \ {0} : /\ rs[j].a = (IF j = 1 THEN 1 ELSE rs[j - 1].b + 1)
-                                  /\ rs[j].b - rs[j].a + 1 = Min2(Cap, rs[j].avail)
-                                  /\ rs[j].raw = Sub(Stream, rs[j].a, rs[j].b)
+            \A j \in {Len(rs)} \ {0} :
+                /\ rs[j].a = (IF j = 1 THEN 1 ELSE rs[j - 1].b + 1)
+                /\ rs[j].b - rs[j].a + 1 = Min2(Cap, rs[j].avail)
+                /\ rs[j].raw = Sub(Stream, rs[j].a, rs[j].b)
 
 G_Chain == /\ \A i \in {Len(hist)} \ {0} : hist[i].T0 = (IF i = 1 THEN InitT ELSE hist[i - 1].T1)
            /\ T = (IF hist = <<>> THEN InitT ELSE hist[Len(hist)].T1)
